@@ -1,6 +1,5 @@
-    }
-}
-
+// C03 observation: a cloned interpreter shares the d2 canvas (append to src/d2_plugin.rs, `cargo test c03_clone`)
+// FAILS on the current tree: left 5, right 2
 #[cfg(test)]
 mod c03_observation {
     use super::*;
